@@ -106,7 +106,8 @@ func (p *AV1Payloader) Payload(mtu uint16, payload []byte) (payloads [][]byte) {
 
 			if needNewPacket {
 				newSequence = false
-				currentPacketOBUHeader = nil
+				// the OBU being read opens the new packet, later OBUs are compared with its layer
+				currentPacketOBUHeader = obuHeader.ExtensionHeader
 			}
 		}
 
